@@ -102,6 +102,8 @@ struct IvModel<B: Bound> {
     shrunk_after_collapse: AtomicU64,
     max_len: AtomicU64,
     violations: Mutex<Vec<(String, serde_json::Value)>>,
+    /// one capacity-crossing transition of this run, written out
+    sample: Mutex<Option<serde_json::Value>>,
 }
 
 const CAPACITY: usize = 128;
@@ -216,6 +218,11 @@ impl<B: Bound + Send + Sync + 'static> Model for IvModel<B> {
         if rf.0.len() >= CAPACITY && pairs.len() < rf.0.len() {
             // the exact result does not fit: the library had to simplify
             self.crossed_up.fetch_add(1, Ordering::Relaxed);
+            let mut slot = self.sample.lock().unwrap();
+            if slot.is_none() {
+                *slot = Some(json!({"bound_type": self.name, "held_before": format!("{} intervals, first {}", last.imp.len(), show(&last.imp[..last.imp.len().min(3)])), "action": format!("{:?}", action),
+                    "exact_result_intervals": rf.0.len(), "library_result": format!("{} intervals: {}", pairs.len(), show(&pairs[..pairs.len().min(3)])), "every_point_of_the_exact_result_kept": rf.inside(pairs)}));
+            }
         }
         if last.imp.len() >= CAPACITY - 2 && pairs.len() < last.imp.len() {
             self.shrunk_after_collapse.fetch_add(1, Ordering::Relaxed);
@@ -259,6 +266,12 @@ fn run_iv_model<B: Bound + Send + Sync + 'static>(m: IvModel<B>, depth: Option<u
     for (sig, detail) in m.violations.lock().unwrap().iter() {
         r.violation(sig.clone(), format!("intervals<{name}>"), detail.clone());
     }
+    let smp = m.sample.lock().unwrap().clone();
+    if let Some(smp) = smp {
+        if !r.samples.iter().any(|x| x.get("bound_type").is_some()) {
+            r.sample(smp);
+        }
+    }
     if B::name() != "bool" && m.crossed_up.load(Ordering::Relaxed) == 0 {
         r.machinery_errors.push(format!("intervals<{name}>: capacity never crossed (vacuous)"));
     }
@@ -298,6 +311,7 @@ fn iv_model<B: Bound>(name: &'static str, grid: Vec<B>, zone: Vec<B>, extra: Vec
         shrunk_after_collapse: AtomicU64::new(0),
         max_len: AtomicU64::new(0),
         violations: Mutex::new(vec![]),
+        sample: Mutex::new(None),
     }
 }
 
@@ -332,6 +346,7 @@ fn part_a(ctx: &Ctx, r: &mut Report) {
         shrunk_after_collapse: AtomicU64::new(0),
         max_len: AtomicU64::new(0),
         violations: Mutex::new(vec![]),
+        sample: Mutex::new(None),
     };
     run_iv_model(m, None, r, ctx);
 }
@@ -676,7 +691,6 @@ pub fn run(ctx: &Ctx) -> Report {
     part_a(ctx, &mut r);
     let b = part_b(ctx);
     r.merge(b);
-    r.sample(json!({"interval_history": "seed = 126 singleton intervals {10,13,…}; union({[11,11],[14,14]}) -> 128 intervals = capacity -> collapses to [10,385]; intersection_interval(5,1000) keeps it; invariants checked after every step"}));
     r.rule = "(a) explicit-state BFS: state = the real Intervals<B>; every transition is executed on the implementation and compared with the exact operation (independent interval-list reference) applied to the set held before, actions = union_interval/intersection_interval over a 7-point grid, union/intersection with a 12-set family, to_simple_superset, into_interval; initial states empty, full and 125/126/127-interval seeds; invariants on every transition: sorted, disjoint, len<=capacity, result contains the exact result (never loses a point). (b) all ordered pairs of an enumerated type universe (21 variants, depth<=2) x a value universe: subset, union, intersection, own-type laws with reference membership. non-trivial = distinct states (a) + (pair,value) instances whose premise holds (b)".into();
     r.assumptions = vec![
         "values and bounds outside the grids are not explored".into(),
